@@ -74,6 +74,8 @@ T = {
  "C39-p39": ("C39", "a client with PKCE made optional, an authorisation request that still sent a challenge, a token request without verifier", "caught", "quick seed 1", "c39/code-redeemed-without-verifier", None),
  "C47-p47": ("C47", "a supervisor tree of depth >= 2, parent stop already consumed by the subordinate, an actor below still busy, and an explicit stop() on the subordinate in that window",
              "caught", "quick seed 1", "c47/stop-returned-before-cleanup-done", None),
+ "C49-q49": ("C49", "the anonymous account: a token issued while it was valid, then account_expire / valid_from set on anonymous, then the old token presented outside the window",
+             None, None, None, None),
  "C50-p50": ("C50", "a sync request from agreement B naming, without externalId, a live sync object owned by agreement A, together with another entry that has an externalId", "caught", "quick seed 1", "c50/sync-changed-other-agreement-entry", None),
 }
 
